@@ -108,4 +108,19 @@ theorem storeOp_other (T : Transport) (cl : Cluster) (c : Nat) (nowS : Time) (k 
       cases hs : cl.servers[shard cl.servers.length k]? <;>
         simp [Cluster.setServer, Cluster.setL1, Ne.symm hi, hs]
 
+/-! ### histories from the empty cluster -/
+
+/-- sizes of every operation of the history fit the header fields -/
+def HistOk (ops : List Op) : Prop := ∀ op ∈ ops, OpOk op
+
+theorem histOk_prefix {pre ops : List Op} (hp : pre <+: ops) (h : HistOk ops) : HistOk pre :=
+  fun op ho => h op (hp.subset ho)
+
+theorem run_init_eq (sl : List Nat) (ll : List (Option Nat)) (ops : List Op) (hok : HistOk ops) :
+    run (Cluster.init sl ll) ops = arun (Cluster.init sl ll) ops ∧ AllSmall (arun (Cluster.init sl ll) ops) :=
+  run_eq_arun (fresh_init sl ll).invs (allSmall_fresh (fresh_init sl ll)) ops hok
+
+theorem init_length (sl : List Nat) (ll : List (Option Nat)) : (Cluster.init sl ll).servers.length = sl.length := by
+  simp [Cluster.init]
+
 end Cppcms.C10
